@@ -154,6 +154,12 @@ impl WsKill {
 #[allow(deprecated)]
 pub async fn ws_connect(addr: SocketAddr) -> Result<(RawWs, WsKill), WsConnectError> {
 	let tcp = connect(addr).await.map_err(WsConnectError::Handshake)?;
+	ws_over(tcp).await
+}
+
+/// The same over a socket that was connected earlier (the handshake may come long after the TCP connection was accepted).
+#[allow(deprecated)]
+pub async fn ws_over(tcp: TcpStream) -> Result<(RawWs, WsKill), WsConnectError> {
 	let (a, mut b) = tokio::io::duplex(1 << 20);
 	let (ktx, mut krx) = oneshot::channel::<Kill>();
 	tokio::spawn(async move {
